@@ -9,7 +9,7 @@
    members.  [model_table] etc. below are the programs the monadic functions of Model.v are equal
    to (MicroProofs.v); FactsCheck.v / PropertiesFacts.v prove gen = model. *)
 From Common Require Import Prelude.
-From C09 Require Import Model.
+From C09 Require Import Model Env.
 Local Open Scope N_scope.
 
 (* ------------------------------------------------------------------ Optional: programs *)
@@ -224,3 +224,36 @@ Definition any_copy_sem (hk : holderkind) (l : list atok) (w : aworld) (x : anyw
   | HUnique, [TInitCloneIfValid] => Some (a_clone w x)
   | _, _ => None
   end.
+
+(* ------------------------------------------------------------------ getEnvVar.h *)
+Inductive econv := CvAtoi | CvAtofFloat | CvString | CvOther.
+Inductive etok :=
+| EGetenv                               (* auto *str = getenv(var.c_str()); *)
+| EFoundNonNull                         (* bool found = (str != nullptr); *)
+| ERetFoundConvElseEmpty (c : econv)    (* return found ? Optional<K>(conv(str)) : Optional<K>(); *)
+| EUnknown.
+Definition conv_of (k : kind) : econv :=
+  match k with KInt => CvAtoi | KFloat => CvAtofFloat | KStr => CvString end.
+Definition model_env (k : kind) : list etok := [EGetenv; EFoundNonNull; ERetFoundConvElseEmpty (conv_of k)].
+Definition econv_eqb (a b : econv) : bool :=
+  match a, b with CvAtoi, CvAtoi | CvAtofFloat, CvAtofFloat | CvString, CvString => true | _, _ => false end.
+(* what such a body does for the wrapper store, given what getenv returned *)
+Definition env_sem (atoi atof : N -> N) (l : list etok) (k : kind) (str : option N) (i : N) : option op :=
+  match l with
+  | [EGetenv; EFoundNonNull; ERetFoundConvElseEmpty c] =>
+      if econv_eqb c (conv_of k) then Some (m_getenv atoi atof k str i) else None
+  | _ => None
+  end.
+
+(* ------------------------------------------------------------------ traits/rktraits.h *)
+(* what Any's comparison path takes from the traits: HasOperatorEqualsT<T>::value evaluated by the
+   compiler for representative payload types, and the two isSameImpl overloads it selects between *)
+Record traitfacts := {
+  tf_eq_int : bool; tf_eq_string : bool; tf_eq_payload : bool;   (* types WITH operator== *)
+  tf_eq_noeq : bool;                                             (* a struct WITHOUT operator== *)
+  tf_same_dispatch : bool;      (* handle<T>::isSame(other) returns isSameImpl<T>(other) *)
+  tf_impl_eq_shape : bool;      (* HasOperatorEquals overload: dynamic_cast, null test, value == value *)
+  tf_impl_noeq_false : bool }.  (* NoOperatorEquals overload: return false *)
+Definition model_traits : traitfacts :=
+  {| tf_eq_int := true; tf_eq_string := true; tf_eq_payload := true; tf_eq_noeq := false;
+     tf_same_dispatch := true; tf_impl_eq_shape := true; tf_impl_noeq_false := true |}.
